@@ -38,16 +38,24 @@ pub fn arg_value(args: &[String], name: &str) -> Option<String> {
         .and_then(|i| args.get(i + 1).cloned())
 }
 
-/// Run code under test; a panic becomes an `Err(message)`
+thread_local! {
+    pub static LAST_PANIC_FILE: std::cell::RefCell<String> = std::cell::RefCell::new(String::new());
+}
+
+/// Run code under test; a panic becomes an `Err("<message> @<source file>")`
 pub fn guarded<T, F: FnOnce() -> T>(f: F) -> Result<T, String> {
     std::panic::catch_unwind(std::panic::AssertUnwindSafe(f)).map_err(|e| {
-        if let Some(s) = e.downcast_ref::<&str>() {
+        let msg = if let Some(s) = e.downcast_ref::<&str>() {
             s.to_string()
         } else if let Some(s) = e.downcast_ref::<String>() {
             s.clone()
         } else {
             "panic".to_string()
-        }
+        };
+        let file = LAST_PANIC_FILE.with(|f| f.borrow().clone());
+        let file = file.rsplit("/src/").next().unwrap_or("").to_string();
+        let short: String = msg.chars().take(200).collect();
+        format!("{short} @{file}")
     })
 }
 
